@@ -24,7 +24,8 @@ func genCrashScn(rng *rand.Rand, maxN int) faultScn {
 		Label:    []string{"", "", "lab"}[rng.Intn(3)],
 		Compress: rng.Intn(2) == 0,
 		PushPull: []time.Duration{0, 5 * time.Second, 30 * time.Second}[rng.Intn(3)],
-		DeadTime: 30 * time.Second,
+		DeadTime: []time.Duration{30 * time.Second, 30 * time.Second, 3 * time.Second}[rng.Intn(3)], // (3 s: shorter than any suspicion timeout)
+		Reclaim:  []time.Duration{0, 0, 10 * time.Second}[rng.Intn(3)],
 	}
 	maxCrash := (sc.N+1)/2 - 1
 	if maxCrash < 1 {
